@@ -34,7 +34,9 @@ CLASSES = ['swap-keys', 'dup-key', 'shift-key-below', 'shift-key-above',
 
 
 def must_see(tier):
-    m = {'valid-accepted': 100, 'control-accepted': 100}
+    m = {'valid-accepted': 100, 'control-accepted': 100,
+         'valid-ghost-accepted': 100, 'c:detected-on-ghost-tree': 200,
+         'py:detected-on-ghost-tree': 200}
     for impl in ('c', 'py'):
         for c in CLASSES:
             if c == 'empty-node':
@@ -83,6 +85,35 @@ def run_checkers(t):
         det.add('_check')
     except Exception as e:
         other.append(('_check', '%s: %s' % (type(e).__name__, str(e)[:100])))
+    return det, other
+
+
+def store_ghost(t, impl):
+    """Commit `t` to a MiniDB and return (connection, tree) with every node
+    a ghost - the state in which a checker meets a tree that has just been
+    opened from a database."""
+    from .. import minidb
+    conn = minidb.Connection(minidb.Storage(), impl)
+    conn.add(t)
+    conn.commit()
+    conn.cache.minimize()
+    return conn, t
+
+
+def run_checkers_ghost(conn, t):
+    """Like run_checkers, but each checker starts from an all-ghost tree."""
+    from BTrees.check import check
+    det = set()
+    other = []
+    for name, fn in (('check', lambda: check(t)),
+                     ('_check', lambda: t._check())):
+        conn.cache.minimize()
+        try:
+            fn()
+        except AssertionError:
+            det.add(name)
+        except Exception as e:
+            other.append((name, '%s: %s' % (type(e).__name__, str(e)[:100])))
     return det, other
 
 
@@ -257,6 +288,28 @@ def run_tree(fam, kind, impl, rng, rec, ti):
                       walker=wc.errors[:2], **desc0)
         return
     rec.ev('control-accepted')
+    # (a') the same valid tree as a checker meets it right after opening a
+    # database: every node a ghost (children are activated on demand)
+    stored_ok = False
+    if not wc.inline_nonroot:
+        try:
+            conn, gt = store_ghost(ctl, impl)
+            det, other = run_checkers_ghost(conn, gt)
+            wg = walker.walk(gt, is_mapping, check_sizes=False)
+        except Exception as e:
+            rec.ev('ghost-store-failed')
+            wg = None
+        if wg is not None and (wg.errors or wg.keys != w.keys):
+            rec.ev('ghost-reload-differs')   # F22/F34: C04's and C06's
+        elif wg is not None:
+            rec.evaluations += 1
+            stored_ok = True
+            if det or other:
+                rec.violation('valid-ghost-tree-rejected', by=sorted(det),
+                              other=other, leaves=brief(w.leaf_keys, 300),
+                              shape=brief(w.shape, 200), **desc0)
+                return
+            rec.ev('valid-ghost-accepted')
     # (b) single corruptions
     for cls, lvl, pos, cd, kw in corruptions(d, rng, uni):
         rec.journal(repr((desc0, cls, lvl, pos)))
@@ -287,6 +340,36 @@ def run_tree(fam, kind, impl, rng, rec, ti):
         rec.ev('%s:detected:%s' % (impl, cls))
         if len(det) == 1:
             rec.ev('%s:detected-only-by:%s' % (impl, sorted(det)[0]))
+        # the same corrupted tree stored and met as ghosts: still detected
+        if stored_ok and cls not in ('mixed-kinds', 'wrong-firstbucket',
+                                     'next-self', 'next-last-back'):
+            try:
+                ct2 = surgeon.build(cd, fam, kind, impl, **kw)
+                conn2, _ = store_ghost(ct2, impl)
+                wk2 = walker.walk(ct2, is_mapping, check_sizes=False)
+                conn2.cache.minimize()
+            except Exception:
+                rec.ev('corruption-not-storable:' + cls)
+                continue
+            try:
+                still = breaks_property(wk2)
+            except Exception:
+                still = None
+            if not still:
+                # storing changed the damage (e.g. a dropped next pointer is
+                # re-created from another reference): nothing to demand
+                rec.ev('corruption-changed-by-storing:' + cls)
+                continue
+            det2, other2 = run_checkers_ghost(conn2, ct2)
+            rec.evaluations += 1
+            if not det2:
+                rec.violation('corruption-not-detected-on-ghost-tree',
+                              corruption=cls, level=lvl, position=pos,
+                              walker=brief(still, 200), other=other2,
+                              leaves=brief(w.leaf_keys, 300),
+                              shape=brief(w.shape, 200), **desc0)
+                continue
+            rec.ev('%s:detected-on-ghost-tree' % impl)
     if ti == 0 and kind == 'BTree':
         rec.sample(dict(desc0, leaves=brief(w.leaf_keys, 200),
                         shape=brief(w.shape, 100)))
